@@ -12,7 +12,7 @@ Require Import V.model.SignDkls V.proofs.SignDkls_proofs.
 Require Import V.model.SignLindell22 V.proofs.SignLindell22_proofs.
 Require Import V.model.SignBls V.proofs.SignBls_proofs.
 Require Import V.model.SignLindell17 V.proofs.SignLindell17_proofs.
-Require Import V.model.SignCggmp V.proofs.SignCggmp_proofs.
+Require V.model.SignCggmp V.proofs.SignCggmp_proofs.
 Require Import V.proofs.SignC01_extra_proofs.
 
 (* ---- DKLs23 (both multipliers run this algebra) -------------------------------------- *)
@@ -210,45 +210,111 @@ Print Assumptions C01_lindell17_signature_valid.
 (* ---- every accepted quorum --------------------------------------------------------------- *)
 (* The theorems above quantify over ANY number of parties and ANY values satisfying the
    additive-sum hypothesis, i.e. over every accepted quorum, minimal or not.  Stated for two
-   quorums side by side: *)
-Theorem C01_quorum_independence_dkls : quorum_independence_dkls_statement.
-Proof. exact quorum_independence_dkls. Qed.
+   quorums (of arbitrary sizes) side by side: *)
+Theorem C01_quorum_independence_dkls :
+  forall (F : Type) (K : fops F), flaws K ->
+  forall (xc : F -> F) (yodd xover high : F -> bool),
+  (forall k, xc (fopp K k) = xc k) ->
+  (forall k, k <> f0 K -> yodd (fopp K k) = negb (yodd k)) ->
+  (forall k, xover (fopp K k) = xover k) ->
+  forall (inp1 inp2 : SignDkls.inputs) (m x : F) (a1 zeta1 a2 zeta2 : nat -> F),
+  (forall i, in_sk inp1 i = fadd K (a1 i) (zeta1 i)) ->
+  SignDkls.sum_over K (SignDkls.parties (SignDkls.in_n inp1)) a1 = x ->
+  SignDkls.sum_over K (SignDkls.parties (SignDkls.in_n inp1)) zeta1 = f0 K ->
+  vole_product K inp1 -> SignDkls.guard K xc inp1 m x ->
+  (forall i, in_sk inp2 i = fadd K (a2 i) (zeta2 i)) ->
+  SignDkls.sum_over K (SignDkls.parties (SignDkls.in_n inp2)) a2 = x ->
+  SignDkls.sum_over K (SignDkls.parties (SignDkls.in_n inp2)) zeta2 = f0 K ->
+  vole_product K inp2 -> SignDkls.guard K xc inp2 m x ->
+  (exists sg1, SignDkls.sign K xc yodd xover high inp1 m x = Some sg1 /\
+               SignDkls.verify K xc yodd xover m x sg1 = true) /\
+  (exists sg2, SignDkls.sign K xc yodd xover high inp2 m x = Some sg2 /\
+               SignDkls.verify K xc yodd xover m x sg2 = true).
+Proof. exact @quorum_independence_dkls. Qed.
 Print Assumptions C01_quorum_independence_dkls.
 
-Theorem C01_quorum_independence_lindell22 : quorum_independence_lindell22_statement.
-Proof. exact quorum_independence_lindell22. Qed.
+Theorem C01_quorum_independence_lindell22 :
+  forall (F : Type) (K : fops F), flaws K ->
+  forall (M : Type) (odd : F -> bool) (xo : F -> F) (chal : F -> F -> M -> F),
+  (forall k, k <> f0 K -> odd (fopp K k) = negb (odd k)) ->
+  (forall k, xo (fopp K k) = xo k) ->
+  forall (fl : flavour) (inp1 inp2 : SignLindell22.inputs) (m : M) (x : F),
+  SignLindell22.sum_over K (SignLindell22.parties (SignLindell22.in_n inp1)) (in_a inp1) = x ->
+  SignLindell22.sum_over K (SignLindell22.parties (SignLindell22.in_n inp1)) (in_z inp1) = f0 K ->
+  SignLindell22_proofs.guard K odd xo chal fl inp1 m x ->
+  SignLindell22.sum_over K (SignLindell22.parties (SignLindell22.in_n inp2)) (in_a inp2) = x ->
+  SignLindell22.sum_over K (SignLindell22.parties (SignLindell22.in_n inp2)) (in_z inp2) = f0 K ->
+  SignLindell22_proofs.guard K odd xo chal fl inp2 m x ->
+  (exists sg1, SignLindell22.sign K odd xo chal fl false inp1 m x = Some sg1 /\
+               SignLindell22.verify K odd xo chal fl x m sg1 = true) /\
+  (exists sg2, SignLindell22.sign K odd xo chal fl false inp2 m x = Some sg2 /\
+               SignLindell22.verify K odd xo chal fl x m sg2 = true).
+Proof. exact @quorum_independence_lindell22. Qed.
 Print Assumptions C01_quorum_independence_lindell22.
 
-(* BLS signatures are unique: every accepted quorum yields the SAME signature *)
+(* BLS signatures are unique: every accepted quorum yields the SAME signature, which verifies *)
 Theorem C01_quorum_independence_boldyreva :
   forall (F : Type) (K : fops F), flaws K ->
   forall (Msg Hin : Type) (hin_eqb : Hin -> Hin -> bool),
   (forall a b, hin_eqb a b = true <-> a = b) ->
   forall (hmsg : rogue_mode -> key_size -> F -> Msg -> Hin) (hpop : key_size -> F -> Hin)
     (msg_empty : Msg -> bool) (md : rogue_mode) (ks : key_size) (x : F) (m : Msg) (hs1 hs2 : list holder),
-  wf_holders hs1 -> recon K hs1 = x -> x <> f0 K -> msg_empty m = false ->
+  x <> f0 K -> msg_empty m = false ->
+  wf_holders hs1 -> recon K hs1 = x ->
   (forall h, List.In h hs1 -> forall l, List.In l (h_rows h) -> l <> f0 K) ->
-  wf_holders hs2 -> recon K hs2 = x -> x <> f0 K -> msg_empty m = false ->
+  wf_holders hs2 -> recon K hs2 = x ->
   (forall h, List.In h hs2 -> forall l, List.In l (h_rows h) -> l <> f0 K) ->
-  SignBls.sign K hin_eqb hmsg hpop msg_empty md ks x m hs1 =
-  SignBls.sign K hin_eqb hmsg hpop msg_empty md ks x m hs2.
-Proof. exact @boldyreva_quorum_independent. Qed.
+  exists sg,
+    SignBls.sign K hin_eqb hmsg hpop msg_empty md ks x m hs1 = Some sg /\
+    SignBls.sign K hin_eqb hmsg hpop msg_empty md ks x m hs2 = Some sg /\
+    SignBls.verify K hin_eqb hmsg hpop msg_empty md ks x m sg = true.
+Proof. exact @quorum_independence_boldyreva. Qed.
 Print Assumptions C01_quorum_independence_boldyreva.
 
 (* ---- CGGMP21 (partial: the MtA algebra) -------------------------------------------------- *)
-(* Full statement (not proved): an honest CGGMP21 run — Paillier encryptions, the enc-elg,
-   aff-g, elog and dec proofs, the red-alert path — ends with an ECDSA signature that verifies.
-   Proved: the algebra of the online phase given correct MtA outputs. *)
-Theorem C01_cggmp_signature_valid_partial : cggmp_signature_valid_partial_statement.
-Proof. exact cggmp_signature_valid_partial. Qed.
+(* Full statement (NOT proved): an honest CGGMP21 run — Paillier encryptions of k_i, gamma_i,
+   the enc-elg, aff-g, elog and dec proofs, the red-alert path — terminates with an ECDSA
+   signature that the library verifier and an independent verifier accept.
+   Proved: the algebra of the online phase, given the outputs of the Paillier affine
+   operation as additive shares of the products (hypothesis mta_product, C16), for every
+   number of parties: the run yields (xc g, (m + xc g·y)/g, recid) for g = Σ gamma_i, and it
+   verifies. *)
+Theorem C01_cggmp_signature_valid_partial :
+  forall (F : Type) (K : fops F), flaws K ->
+  forall (xc : F -> F) (yodd xover : F -> bool) (inp : SignCggmp.inputs) (m y : F),
+  SignCggmp.mta_product K inp ->
+  SignCggmp.big_x K inp = y ->                                  (* C02 to_additive_sums + zero sharing *)
+  SignCggmp.guard K xc inp m y ->
+  SignCggmp.sign K xc yodd xover inp m y = Some (SignCggmp.expected_sig K xc yodd xover inp m y) /\
+  SignCggmp.verify K xc yodd xover m y (SignCggmp.expected_sig K xc yodd xover inp m y) = true.
+Proof. exact @SignCggmp_proofs.cggmp_signature_valid_partial. Qed.
 Print Assumptions C01_cggmp_signature_valid_partial.
 
-(* ---- the hypotheses are satisfiable by non-trivial instances ------------------------------ *)
-Example C01_dkls_nonvacuous : dkls_nonvacuous_statement.
+(* ---- the hypotheses are satisfiable by non-trivial instances (Z_7) ------------------------- *)
+Example C01_dkls_nonvacuous :
+  flaws K7 /\
+  (forall k, ex_xc (fopp K7 k) = ex_xc k) /\
+  (forall k, k <> f0 K7 -> ex_yodd (fopp K7 k) = negb (ex_yodd k)) /\
+  (forall k, ex_xover (fopp K7 k) = ex_xover k) /\
+  (forall i, in_sk ex_inp i = fadd K7 (ex_a i) (ex_zeta i)) /\
+  SignDkls.sum_over K7 (SignDkls.parties (SignDkls.in_n ex_inp)) ex_a = z7 5 /\
+  SignDkls.sum_over K7 (SignDkls.parties (SignDkls.in_n ex_inp)) ex_zeta = f0 K7 /\
+  vole_product K7 ex_inp /\
+  SignDkls.guard K7 ex_xc ex_inp (z7 1) (z7 5) /\
+  SignDkls.in_n ex_inp = 2%nat.
 Proof. exact dkls_nonvacuous. Qed.
-Example C01_lindell22_nonvacuous : lindell22_nonvacuous_statement.
-Proof. exact lindell22_nonvacuous. Qed.
-Example C01_boldyreva_nonvacuous : boldyreva_nonvacuous_statement.
-Proof. exact boldyreva_nonvacuous. Qed.
-Example C01_lindell17_nonvacuous : lindell17_nonvacuous_statement.
+
+Example C01_lindell17_nonvacuous :
+  prime 7 /\ (0 < 7)%Z /\ (0 <= in_rho ex17 < 7 * 7)%Z /\
+  Forall (fun x => 0 <= x < 3 * 7)%Z (in_x1 ex17) /\
+  in_x1 ex17 <> [] /\
+  length (in_lam ex17) = length (in_x1 ex17) /\
+  bound_ok 7 5000 (Z.of_nat (length (in_x1 ex17))) = true /\
+  in_Zp 7 (in_k1 ex17) /\ in_Zp 7 (in_k2 ex17) /\
+  in_k1 ex17 <> 0%Z /\ in_k2 ex17 <> 0%Z.
 Proof. exact lindell17_nonvacuous. Qed.
+
+Example C01_boldyreva_nonvacuous :
+  wf_holders exh /\ recon K7 exh = z7 5 /\ z7 5 <> f0 K7 /\
+  (forall h, In h exh -> forall l, In l (h_rows h) -> l <> f0 K7).
+Proof. exact boldyreva_nonvacuous. Qed.
